@@ -536,7 +536,7 @@ func runC02(c *Ctx, r *Run) {
 	checkLagrange(c, r)
 	r.Require("LAG-2", 6)
 	r.Require("LAG-4", 6)
-	r.Require("DEG-1", 5)
+	r.Require("DEG-1", 4)
 	r.Require("DEG-2", 3)
 	r.Require("EVAL-P", 4)
 	r.Require("EVAL-S", 8)
